@@ -280,6 +280,8 @@ def run(ctx):
             bounds={'elements': n_el, 'menu_items': len(model.FULL_MENU), 'near_miss_names': len(NEAR_MISS),
                     'quick_cases': nq, 'pair_cases': npairs, 'reduced_items': len(reduced_items()),
                     'blocks_per_case_max': 3})
+    from vt.scan import fake
+    ctx.set(skeleton={'c': fake.c_of(skel.decls()), 'dump': skel.DUMP, 'includes': skel.INCLUDES})
     best = {}
     _run_cases(ctx, cases, best)
     ctx.add(evaluations=1)          # the baseline scan
